@@ -3,8 +3,10 @@
              table  entries VL [VB beginText; VB endText; VB begin16; VB end16]
              hdrs   entries VL [VB name; VB value]
              oracle entries VL [VB text; VB ip16; VB canonText]   (net.ParseIP / IP.String of the candidate texts)
-           op (1 = whole server, 2 = callback level) does not matter to the model: both must behave alike.
-   output: VL [VZ trusted; caddr; VL xff; VL xrip; VL xrport; VL xfport]   caddr = VL [] | VL [VB ip16; VZ port] *)
+           op 1 = whole server: the four fields are read off the request the backend received, i.e. after the
+           hop-by-hop stage of the reverse proxy (model: HopByHop.to_backend); op 2 = callback level: read off the
+           request after the HandleAfterLocation list.
+   output: VL [VZ trusted; caddr; VL xff; VL xrip; VL xrport; VL xfport; VL xfhost; VL xbfeip]   caddr = VL [] | VL [VB ip16; VZ port] *)
 From Coq Require Import List ZArith Bool.
 From Bfe Require Import lib.Val lib.Bytes model.HopByHop model.ClientAddr.
 Import ListNotations.
@@ -23,14 +25,14 @@ Fixpoint lookup (tbl : list (bytes * (ip16 * bytes))) (t : bytes) : option (ip16
   | (k, v) :: r => if bytes_eqb t k then Some v else lookup r t
   end.
 
-Record input := mk_input { i_table : list range; i_peer : addr; i_hdrs : list (bytes * bytes);
+Record input := mk_input { i_op : Z; i_table : list range; i_peer : addr; i_hdrs : list (bytes * bytes);
                            i_orc : list (bytes * (ip16 * bytes)) }.
 
 Definition dec_C29 (i : val) : option input :=
   match i with
-  | VL [VZ _; VL tb; VL [VB ip; VB text; VZ port]; VL hs; VL oc] =>
+  | VL [VZ op; VL tb; VL [VB ip; VB text; VZ port]; VL hs; VL oc] =>
     match all_some (map dec_range tb), all_some (map dec_hdr hs), all_some (map dec_orc oc) with
-    | Some t, Some h, Some o => Some (mk_input t (mk_addr ip text port) h o)
+    | Some t, Some h, Some o => Some (mk_input op t (mk_addr ip text port) h o)
     | _, _, _ => None
     end
   | _ => None
@@ -39,14 +41,20 @@ Definition dec_C29 (i : val) : option input :=
 Definition enc_addr (a : option addr) : val :=
   match a with Some x => VL [VB (a_ip x); VZ (a_port x)] | None => VL [] end.
 
+Definition host_C29 : bytes := [101;120;97;109;112;108;101;46;111;114;103].            (* example.org *)
+(* local address of the client connection: the server listens on 127.0.0.1 (op 1); the fake connection of op 2 *)
+Definition local_C29 (op : Z) : bytes :=
+  if op =? 1 then [49;50;55;46;48;46;48;46;49] else [49;48;46;57;46;56;46;55].    (* 127.0.0.1 / 10.9.8.7 *)
+
 Definition run_C29 (i : val) : val :=
   match dec_C29 i with
   | None => VErr 0
   | Some x =>
-    let r := process (lookup (i_orc x)) (i_table x) (i_peer x) (i_hdrs x) in
-    let h := r_headers r in
+    let r := process (lookup (i_orc x)) host_C29 (local_C29 (i_op x)) (i_table x) (i_peer x) (i_hdrs x) in
+    (* op 1 observes the fields at the backend: after hopByHopHeaderRemove and the write-exclude filter (C26 model) *)
+    let h := if i_op x =? 1 then to_backend (r_headers r) else r_headers r in
     VL [vbool (r_trusted r); enc_addr (r_caddr r); vLB (values_of s_xff h); vLB (values_of s_xrip h);
-        vLB (values_of s_xrport h); vLB (values_of s_xfp h)]
+        vLB (values_of s_xrport h); vLB (values_of s_xfp h); vLB (values_of s_xfh h); vLB (values_of s_xbfeip h)]
   end.
 Definition agree_C29 (i o : val) : bool := val_eqb (run_C29 i) o.
 
@@ -70,7 +78,7 @@ Definition prop_C29 (i o : val) : bool :=
     let peer := i_peer x in
     let t := trusted (i_table x) (a_ip peer) in
     match o with
-    | VL [VZ tr; ca; xff; xrip; xrport; _] =>
+    | VL [VZ tr; ca; xff; xrip; xrport; _; _; _] =>
       (tr =? (if t then 1 else 0)) &&
       match as_LB xff with
       | Some [v] => bytes_eqb (last_elem v) (a_text peer)
